@@ -166,7 +166,36 @@ func (c *c15) checkPath(seam, p string) {
 
 func RunC15(env *sim.Env) {
 	t := env.Tape
+	if t.Choose(12) == 11 {
+		// one run in twelve: the same relative spelling from different directories at the same time (conc_more.go)
+		runC15Concurrent(env)
+		return
+	}
 	c := &c15{env: env, t: t}
+	// one run in six uses a 110-character name for the directory "a": referrer directory plus name
+	// exceed 128 (and, two levels deep, 256) bytes
+	c15Targets, c15RefDirs := c15Targets, c15RefDirs
+	if t.Choose(6) == 5 {
+		long := "a" + strings.Repeat("x", 109)
+		lp := func(ps []string) []string {
+			out := make([]string, len(ps))
+			for i, p := range ps {
+				segs := strings.Split(p, "/")
+				for j, sg := range segs {
+					if sg == "a" {
+						segs[j] = long
+					}
+					if sg == "b" {
+						segs[j] = "b" + strings.Repeat("y", 139)
+					}
+				}
+				out[i] = strings.Join(segs, "/")
+			}
+			return out
+		}
+		c15Targets, c15RefDirs = lp(c15Targets), lp(c15RefDirs)
+		env.Stat("probe:names_longer_than_128_bytes", 1)
+	}
 	c.exts = [][]string{{"", ".jet", ".html.jet", ".jet.html"}, {"", ".jet"}, {".jet"}, {"", ".html"}}[t.Choose(4)]
 	useOS := t.Choose(8) == 7
 	var scratch string
